@@ -294,6 +294,9 @@ pub fn dump_container(entry: &Path, spec: &DumpSpec) -> Dump {
         Ok(c) => c,
         Err(e) => {
             out.push("open", Leaf::Err(err_class(&e)));
+            // the other entry point to the same file (`tools::open_pack`, used by check / locate /
+            // concat tools) is asked all the same
+            dump_manifest(entry, &mut out);
             return out;
         }
     };
